@@ -28,8 +28,8 @@ MANIFEST = {
              "re-issue to the available peer with the best score AND with the best record as the trace itself shows it "
              "(successes / failures accounted so far), Query/Stop/result hand-back never block, no panic) are "
              "evaluated by TLC on the observed traces. The real worker.Run is replayed against Worker.tla (mock Peer, "
-             "millisecond timeouts, unbuffered results channel, quit closed while a result is being handed back to "
-             "nobody). The repository's own work-manager tests are re-run with the hooks recording; "
+             "virtual time in a testing/synctest bubble: half-timeout ticks with unrelated / progressing messages in "
+             "between, unbuffered results channel, quit closed while a result is being handed back to nobody). The repository's own work-manager tests are re-run with the hooks recording; "
              "their executions are judged by the same operators and validated against TraceWorkManager.tla.",
         note="Bounded: <=2 addresses, <=3 peer objects, <=2 batches x <=2 requests, NumRetries {0,1,2} x NoRetryMax {no,yes}, "
              "<=2-3 failures per history. Trusts TLC, the scripted worker's adherence to the Worker contract (checked "
